@@ -538,6 +538,31 @@ func checkFilters(p *Prog, r *Report, rg *registry) {
 	if ok {
 		r.OK("D3-filter", site, p.Pos(fb.Pos()), "append(elem) only under ValidateRequirements(elem, capabs) == nil")
 	}
+	// and the converse: every element that validates is kept — no other decision drops an element, and
+	// the function cannot return before (or without) looking at the elements
+	var extra []string
+	for _, el := range []string{"Extractor", "Detector"} {
+		for _, x := range loopSkips(fb, isAppendOf(el)) {
+			if strings.Contains(x, "ValidateRequirements") || (strings.HasPrefix(x, "builtin.len(param0)") && strings.Contains(x, "<=")) {
+				continue
+			}
+			extra = append(extra, x)
+		}
+	}
+	r.Check(len(extra) == 0, "D3-filter", site+":keeps-every-valid-element", p.Pos(fb.Pos()), "the only decision that drops an element is ValidateRequirements != nil", fmt.Sprintf("the filter drops elements for a reason other than ValidateRequirements (%v): a plugin whose requirements the environment satisfies is filtered out", extra))
+	var hdr *ssa.BasicBlock
+	for _, b := range fb.Blocks {
+		if isLoopHeader(b) {
+			hdr = b
+		}
+	}
+	okRet := hdr != nil
+	for _, ret := range returnsOf(fb) {
+		if hdr == nil || !hdr.Dominates(ret.Block()) {
+			okRet = false
+		}
+	}
+	r.Check(okRet, "D3-filter", site+":no-early-return", p.Pos(fb.Pos()), "every return comes after the loop over the elements", "the filter can return without examining the elements (an early return for some capability value): valid plugins are dropped wholesale")
 	// FromCapabilities: returns FilterByCapabilities(all, capabs), all built from ranging over All and calling every initer.
 	fc := p.Func(rg.pkgRel, "FromCapabilities")
 	s2 := rg.pkgRel + ".FromCapabilities"
@@ -714,6 +739,10 @@ func checkEnable(p *Prog, r *Report) {
 	if len(c1) != 1 || len(c2) != 1 {
 		r.Fail("D6-enable", site, p.Pos(fn.Pos()), fmt.Sprintf("expected one lookup in each extractor registry, found %d filesystem / %d standalone", len(c1), len(c2)))
 		return
+	}
+	// the set of already enabled names is updated with the very name that was looked up
+	if n := checkVisitedSets(p, r, "D6-enable", []*ssa.Function{fn}); n == 0 {
+		r.Fail("D6-enable", site+":enabled-set", p.Pos(fn.Pos()), "no set of already enabled extractor names is consulted: a required extractor shared by several detectors is enabled once per detector")
 	}
 	// both lookups use the same name value
 	a1, a2 := c1[0].Common().Args[0], c2[0].Common().Args[0]
